@@ -191,7 +191,9 @@ HOSTILE_CHARS = ".+[](){}^$|\\*?\"' -_:;<>#%&=~`,!@/"
 PLAIN_CHARS = "abcdeXYZ019"
 # characters on which upper/lower/casefold/re.IGNORECASE agree pairwise
 CASE_PAIRS = "aAbBzZéÉжЖ"
-NONASCII = "éÉжЖü中\U0001f600\u0301\u212b\u2126\u030a"  # incl. combining marks and code points that Unicode normalisation would rewrite
+# incl. combining marks (Unicode normalisation would merge them); NOT U+212B / U+2126 and the like, whose upper/lower/
+# swapcase mappings disagree with each other (names are also used in case-insensitive resolver checks)
+NONASCII = "éÉжЖü中\U0001f600\u0301\u030a"
 
 
 def random_name(rng, sep="/", hostile=True, maxlen=5, forbid=("", ".", "..")):
